@@ -230,12 +230,13 @@ WInt == EInt(1)
 WBool == EBool(TRUE)
 WEnum(en) == EEv(en, 1)
 WOpq == ERef("s")
+WOpqs == {ERef("s"), ERef("s.flag")}    \* opaque leaves (a struct-typed field; an inline bits whose type is named Flag)
 OtherEnum(en, c) == CHOOSE x \in EnumsIn(c) : x # en
 AnEnum(c) == CHOOSE x \in EnumsIn(c) : TRUE
 
 \* wrong-kind operands for an operator that wants integers / booleans
-NotInt(c)  == {WBool, WEnum(AnEnum(c))} \cup (IF c = "S" THEN {WOpq} ELSE {})
-NotBool(c) == {WInt,  WEnum(AnEnum(c))} \cup (IF c = "S" THEN {WOpq} ELSE {})
+NotInt(c)  == {WBool, WEnum(AnEnum(c))} \cup (IF c = "S" THEN WOpqs ELSE {})
+NotBool(c) == {WInt,  WEnum(AnEnum(c))} \cup (IF c = "S" THEN WOpqs ELSE {})
 V(rule, e) == [rule |-> rule, e |-> e]
 
 BadInt(sub, c) ==
